@@ -26,6 +26,7 @@ func VerifC13RunPublication(
 	channel net.BroadcastChannel,
 	resultSigner ResultSigner,
 	resultSubmitter ResultSubmitter,
+	result *Result,
 	messages []net.Message,
 ) ([]byte, map[group.MemberIndex][]byte, error, error) {
 	member := newSigningMember(logger, self, grp, membershipValidator, sessionID)
@@ -35,6 +36,7 @@ func VerifC13RunPublication(
 		resultSigner:    resultSigner,
 		resultSubmitter: resultSubmitter,
 		member:          member,
+		result:          result,
 	}
 	if err := signingState.Initiate(ctx); err != nil {
 		return nil, nil, nil, err
